@@ -66,22 +66,26 @@ def run_a(ctx, variant):
     feeA = ctx.real('feeA', 0, 0.01)
     balA = ctx.real('balA', 500, 100000)
     v = dict(exch_type='futures', name=S.EXCHANGE, symbol=S.SYMBOL, tf='1m', data=[], leverage=5, mode='isolated', warm=0, fast=False,
-             abort_at=None, poor=False)
+             abort_at=None, poor=False, abort_hook='before', two_entries=False)
     v.update(variant)
     step = {'n': 0}
 
     def hooks_abort(s, order=None):
         pass
-    T = S.make_template(side='long', entry=None, stop=90.0, take=104.0, qty=1.0, on_open_exits=(v['exch_type'] == 'spot'),
+    entry = None
+    if v['two_entries']:
+        entry = [(1.0, 100.0), (100000.0, 100.0)]  # the second row cannot be afforded: InsufficientMargin after the first was queued
+    T = S.make_template(side='long', entry=entry, stop=90.0, take=104.0, qty=1.0, on_open_exits=(v['exch_type'] == 'spot'),
                         exit_qty_from_position=(v['exch_type'] == 'spot'), name='A')
     if v['abort_at'] is not None:
-        base_before = T.before
+        hook = v['abort_hook']
+        base = getattr(T, hook)
 
-        def before(self):
-            base_before(self)
+        def aborting(self):
+            base(self)
             if self.index == v['abort_at']:
                 raise Abort('strategy hook failed')
-        T.before = before
+        setattr(T, hook, aborting)
     if v['poor']:
         balA = ctx.real('balA_poor', 1, 40)  # cannot afford qty 1 at 100 with leverage 2 -> InsufficientMargin at the first step
     cfg = S.config_dict(v['exch_type'], leverage=v['leverage'], mode=v['mode'], fee=feeA, balance=balA, exchange=v['name'], warm_up=v['warm'])
@@ -219,6 +223,8 @@ VARIANTS = {
     'abort_step2': {'abort_at': 2},
     'insufficient_margin': {'poor': True},
     'spot_other_exchange_abort': {'exch_type': 'spot', 'name': 'Spot Ex', 'abort_at': 1},
+    'abort_after_entry': {'abort_at': 0, 'abort_hook': 'after'},
+    'second_entry_rejected': {'two_entries': True},
 }
 
 
@@ -228,7 +234,7 @@ def _jobs(tier):
     def add(vn, **kw):
         jobs.append(Job('abb_%s_%s' % (vn, '_'.join(str(x) for x in kw.values())), h_abb, dict(variant=VARIANTS[vn], **kw),
                         {'fork_per_path': True, 'max_decisions': 4000}))
-    names = list(VARIANTS) if tier != 'quick' else ['same', 'other_fee_leverage', 'spot_same_name', 'other_exchange', 'abort_step2', 'insufficient_margin']
+    names = list(VARIANTS) if tier != 'quick' else ['same', 'other_fee_leverage', 'spot_same_name', 'other_exchange', 'abort_step2', 'insufficient_margin', 'abort_after_entry', 'second_entry_rejected']
     for vn in names:
         add(vn, probe_type='futures')
     add('same', probe_type='spot')
@@ -270,7 +276,7 @@ def signature(v):
         tags.append('earlier-session-on-another-exchange-name')
     if var.get('exch_type', 'futures') != b.get('probe_type', 'futures'):
         tags.append('earlier-session-other-account-type')
-    if var.get('abort_at') is not None or var.get('poor'):
+    if var.get('abort_at') is not None or var.get('poor') or var.get('two_entries'):
         tags.append('earlier-session-aborted')
     return sig + ''.join('|' + t for t in tags)
 
